@@ -312,7 +312,7 @@ func (e *Explorer) Explore() {
 					atomic.AddInt64(&e.SelfChecks, 1)
 					again.Next.Mem = c.st.Mem // monitor memory is written by the monitors, which do not run here
 					if again.Next.Key() != c.st.Key() {
-						bad.Store(fmt.Sprintf("nondeterministic transition %s from state %v", c.ev, frontier[c.pidx].Describe()))
+						bad.Store(fmt.Sprintf("nondeterministic transition %s from state %v\n  first outcome:  %v\n  second outcome: %v", c.ev, frontier[c.pidx].Describe(), c.st.Describe(), again.Next.Describe()))
 					}
 				}
 			}()
